@@ -184,6 +184,20 @@ func main() {
 			"\treturn fmt.Sprintf(\"func() *" + q + " {\\nthis := &" + q + "{}\\nthis.A = %#v\\nreturn this\\n}()\\n\", this.A)\n}\n"
 	}
 	methodSrc := map[string]string{"golib.G": gostringMethod("golib", "G"), "q0.LG": gostringMethod("q0", "LG")}
+	// named basic types with a String() method whose output is a DIFFERENT valid Go literal (zero-padded = octal,
+	// rounded, quoted, constant): %#v never consults it, %v / %s / %d-less verbs would
+	stringer := func(name, body string) string {
+		return "\nfunc (x " + name + ") String() string { " + body + " }\n"
+	}
+	for k, v := range map[string]string{
+		"golib.Track": stringer("Track", `return fmt.Sprintf("%04d", uint16(x))`), "golib.SInt": stringer("SInt", `return fmt.Sprintf("%+04d", int(x))`),
+		"golib.Temp": stringer("Temp", `return fmt.Sprintf("%.0f", float64(x))`), "golib.Title": stringer("Title", `return fmt.Sprintf("%q", "<"+string(x)+">")`),
+		"golib.Flag": stringer("Flag", `return "true"`), "golib.U64": stringer("U64", `return fmt.Sprintf("0%d", uint64(x))`),
+		"q0.LTrack": stringer("LTrack", `return fmt.Sprintf("%03d", uint8(x))`), "q0.LTitle": stringer("LTitle", `return fmt.Sprintf("%q", string(x)+"!")`),
+		"q0.LFlag": stringer("LFlag", `return "false"`), "q0.LSInt": stringer("LSInt", `return fmt.Sprintf("%05d", int64(x))`),
+	} {
+		methodSrc[k] = v
+	}
 	wireOverride := map[string]string{} // declaration name -> wire of its underlying type as the MODEL sees it
 	taggedTy := func() *ty.Ty {
 		b, f := ty.B, ty.F
@@ -216,6 +230,12 @@ func main() {
 		cfg := addDecl("Cfg", "golib", ty.St(f("Level", ty.P(ty.N(li))), f("Wait", ty.P(ty.N(dur))), f("N", ty.P(ty.N(19)))))
 		// instantiations of generic types (package gpkg is written literally below; an instantiation is, for
 		// values, the struct it expands to; its Go spelling is its name)
+		track := addDecl("Track", "golib", b("uint16"))
+		sint := addDecl("SInt", "golib", b("int"))
+		temp := addDecl("Temp", "golib", b("float64"))
+		title := addDecl("Title", "golib", b("string"))
+		flagT := addDecl("Flag", "golib", b("bool"))
+		u64 := addDecl("U64", "golib", b("uint64"))
 		gg := addDecl("G", "golib", ty.St(f("A", b("int"))))                                               // declares func (*G) GoString() string
 		emg := addDecl("EmG", "golib", ty.St(ty.Field{Name: "G", Embedded: true, T: ty.N(gg)}, f("N", b("int")))) // embeds G: GoString is only PROMOTED
 		rn := addDecl("Rn", "golib", b("rune"))                                                            // a named rune type
@@ -243,6 +263,11 @@ func main() {
 			ty.N(tg), ty.P(ty.N(tg)), ty.Sl(ty.N(tg)), ty.M(b("string"), ty.N(tg)), ty.St(f("T", ty.N(tg)), f("P", ty.P(ty.N(tg)))),
 			ty.M(ty.N(ks), b("int")), ty.M(ty.N(ks), ty.Sl(b("string"))), ty.M(ty.Ar(2, b("string")), b("int")), ty.M(ty.Ar(3, b("string")), ty.P(b("int"))),
 			ty.St(f("M", ty.M(ty.N(ks), ty.N(ks)))),
+			// named basics with a String() method: field, pointer, element, map key and value, root
+			ty.St(f("T", ty.N(track)), f("P", ty.P(ty.N(track))), f("L", ty.Sl(ty.N(track))), f("M", ty.M(ty.N(track), ty.N(track))), f("S", ty.N(sint)),
+				f("F", ty.N(temp)), f("N", ty.N(title)), f("B", ty.N(flagT)), f("U", ty.N(u64)), f("Q", ty.P(ty.N(u64))), f("A", ty.Ar(2, ty.N(track)))),
+			ty.N(track), ty.P(ty.N(track)), ty.Sl(ty.N(track)), ty.M(ty.N(track), b("string")), ty.M(b("string"), ty.N(u64)), ty.N(u64), ty.N(sint), ty.P(ty.N(sint)),
+			ty.N(temp), ty.N(title), ty.P(ty.N(title)), ty.N(flagT), ty.Sl(ty.N(title)), ty.M(ty.N(title), ty.N(flagT)),
 			// types with a pointer-receiver GoString method, and structs that merely embed one, by value and by pointer
 			ty.St(f("G", ty.N(gg)), f("P", ty.P(ty.N(gg))), f("E", ty.N(emg)), f("Q", ty.P(ty.N(emg))), f("L", ty.Sl(ty.N(emg)))),
 			ty.N(gg), ty.P(ty.N(gg)), ty.N(emg), ty.P(ty.N(emg)), ty.M(b("string"), ty.N(emg)),
@@ -290,6 +315,10 @@ func main() {
 		lu := addL("LU", ty.St(f("A", b("int")), f("b", b("string")), f("c", ty.P(b("int")))), true)
 		// own Equal methods that look at the first field only (value and pointer receiver): a value they cannot tell
 		// from zero ({A: 0, B: "x"}) must still be written into the text
+		ltrack := addL("LTrack", b("uint8"), false)
+		ltitle := addL("LTitle", b("string"), false)
+		lflag := addL("LFlag", b("bool"), false)
+		lsint := addL("LSInt", b("int64"), false)
 		leqv := addL("LEqv", ty.St(f("A", b("int")), f("B", b("string"))), false)
 		env.Decls[leqv].Methods = "Ev"
 		leqp := addL("LEqp", ty.St(f("A", b("int")), f("B", ty.Sl(b("int")))), false)
@@ -316,6 +345,9 @@ func main() {
 			ty.St(f("G", ty.N(lg)), f("P", ty.P(ty.N(lg))), f("E", ty.N(lemg)), f("Q", ty.P(ty.N(lemg))), f("R", ty.N(lrn)), f("S", ty.P(ty.N(lrn)))),
 			ty.St(f("V", ty.N(leqv)), f("W", ty.N(leqp)), f("P", ty.P(ty.N(leqv))), f("L", ty.Sl(ty.N(leqp))), f("M", ty.M(b("string"), ty.N(leqv)))),
 			ty.P(ty.St(f("V", ty.N(leqv)), f("N", ty.N(32)), f("U", ty.N(31)))), ty.N(leqv), ty.N(leqp),
+			ty.St(f("T", ty.N(ltrack)), f("P", ty.P(ty.N(ltrack))), f("L", ty.Sl(ty.N(ltrack))), f("M", ty.M(ty.N(ltrack), ty.N(ltitle))), f("N", ty.N(ltitle)),
+				f("B", ty.N(lflag)), f("S", ty.N(lsint)), f("Q", ty.P(ty.N(lsint)))),
+			ty.N(ltrack), ty.P(ty.N(ltrack)), ty.Sl(ty.N(ltrack)), ty.M(ty.N(ltrack), b("int")), ty.N(ltitle), ty.N(lflag), ty.N(lsint), ty.M(b("string"), ty.N(ltrack)),
 			ty.N(lg), ty.N(lemg), ty.P(ty.N(lemg)), ty.Sl(ty.N(lemg)), ty.N(lrn), ty.Sl(ty.N(lrn)),
 			ty.N(ltg), ty.P(ty.N(ltg)), ty.Sl(ty.N(ltg)), ty.M(b("int"), ty.N(ltg)), ty.M(ty.N(lks), b("string")), ty.M(ty.N(lks), ty.N(mark)),
 			ty.M(ty.N(b3), b("string")), ty.M(ty.N(b3), b("int64")), ty.St(f("K", ty.M(ty.N(b3), b("bool")))),
